@@ -271,14 +271,26 @@ SESSION_STREAMS = {
 
 
 def session_worker(args):
-    name, cuts, delays, ext = args
+    name, cuts, delays, ext = args[:4]
+    mirror = len(args) > 4 and args[4]  # 'local-as auto': our OPEN is sent after the peer's
     max_size = 65535 if ext else 4096
     a = alphabet(max_size)
     parts = [a[n] for n in SESSION_STREAMS[name]]
     stream = b''.join(parts)
     cfg = edev.base_config(hold=30, caps='extended-message enable;' if ext else '', apiopts='receive { parsed; update; }')
+    if mirror:
+        cfg = cfg.replace('local-as 65001;', 'local-as auto;')
     with World(cfg) as w:
         env = c05.Env(w, hold=30, script=[], config_name='active', remote_opts={'ext_msg': ext})
+        if mirror:
+            for i in range(6):
+                env.step = i
+                a = env.default_action()
+                if a == 'time' and env.fsm() == 'CONNECT':
+                    a = f'open:{env.current().index}'  # the peer speaks first
+                    env.do(a)
+                    break
+                env.do(a)
         c12.establish(w, env)
         w.advance(0.35)
         s = env.current()
@@ -303,17 +315,17 @@ def session_worker(args):
     exp_err = [(e[1], e[2]) for e in expected if e[0] == 'err']
     if exp_err:
         if not notifs:
-            viols.append((f'header-fault-not-notified:{exp_err[0][0]}/{exp_err[0][1]}', f'stream {name} cuts {cuts} delays {delays}: expected NOTIFICATION {exp_err[0]}, none sent (closed={sock["closed"]})'))
+            viols.append((f'header-fault-not-notified:{exp_err[0][0]}/{exp_err[0][1]}', f'stream {name}{" (local-as auto)" if mirror else ""} cuts {cuts} delays {delays}: expected NOTIFICATION {exp_err[0]}, none sent (closed={sock["closed"]})'))
         elif notifs[0] != exp_err[0]:
-            viols.append((f'header-fault-wrong-code:{exp_err[0][0]}/{exp_err[0][1]}->{notifs[0][0]}/{notifs[0][1]}', f'stream {name} cuts {cuts} delays {delays}: expected NOTIFICATION {exp_err[0]}, got {notifs[0]}'))
+            viols.append((f'header-fault-wrong-code:{exp_err[0][0]}/{exp_err[0][1]}->{notifs[0][0]}/{notifs[0][1]}', f'stream {name}{" (local-as auto)" if mirror else ""} cuts {cuts} delays {delays}: expected NOTIFICATION {exp_err[0]}, got {notifs[0]}'))
     else:
         if notifs or sock['closed']:
-            viols.append((f'valid-stream-reset:{"delayed" if any(delays) else "nodelay"}:{notifs[0] if notifs else "closed"}', f'stream {name} (all valid) cuts {cuts} delays {delays}: session reset with {notifs} closed={sock["closed"]}'))
+            viols.append((f'valid-stream-reset:{"mirror-as:" if mirror else ""}{"delayed" if any(delays) else "nodelay"}:{notifs[0] if notifs else "closed"}', f'stream {name} (all valid) cuts {cuts} delays {delays}: session reset with {notifs} closed={sock["closed"]}'))
     # messages handed over: receive counters in peer stats are exposed through summarize? use API events
     nmsg_expected = sum(1 for e in expected if e[0] == 'msg' and e[1] == wire.UPDATE)
     got_updates = api.count('"type": "update"')
     if got_updates != nmsg_expected and not viols:
-        viols.append((f'update-count:{nmsg_expected}->{got_updates}', f'stream {name} cuts {cuts} delays {delays}: {nmsg_expected} UPDATEs in the stream, {got_updates} delivered to the API'))
+        viols.append((f'update-count:{nmsg_expected}->{got_updates}', f'stream {name}{" (local-as auto)" if mirror else ""} cuts {cuts} delays {delays}: {nmsg_expected} UPDATEs in the stream, {got_updates} delivered to the API'))
     return viols, (name, tuple(notifs), sock['closed'], got_updates)
 
 
@@ -347,17 +359,18 @@ def run(ctx: core.Ctx) -> None:
         a = alphabet(4096)
         for name, parts in SESSION_STREAMS.items():
             for ext in (False, True):
-                if name.startswith('UPDMAX') and not thorough and ext:
-                    continue
+                quick_big = name.startswith('UPDMAX') and not thorough and ext  # only unsegmented in the quick tier
                 ps = [alphabet(65535 if ext else 4096)[n] for n in parts]
                 offs = interesting_offsets(ps)
                 if not thorough:
                     offs = [o for o in offs if o in (1, 16, 18, 19, 20) or o >= len(ps[0]) - 1][:14]
                 ncuts = 2 if not thorough else 3
-                for k in range(0, ncuts + 1):
+                for k in range(0, (0 if quick_big else ncuts) + 1):
                     for c in itertools.combinations(offs, k):
                         for delays in itertools.product((0, 0.15), repeat=k):
-                            bjobs.append((name, c, delays, ext))
+                            bjobs.append((name, c, delays, ext, False))
+                            if k <= 1 and not any(delays):
+                                bjobs.append((name, c, delays, ext, True))
         for (viols, outcome), job in zip(pool.imap(session_worker, bjobs, chunksize=8), bjobs):
             ctx.count('executions')
             ctx.count('transitions', len(job[1]) + 1)
@@ -365,7 +378,7 @@ def run(ctx: core.Ctx) -> None:
             if job[1]:
                 ctx.count('nontrivial')
             for sig, what in viols:
-                ctx.violation(sig, what, {'part': 'B', 'name': job[0], 'cuts': list(job[1]), 'delays': list(job[2]), 'ext': job[3]})
+                ctx.violation(sig, what, {'part': 'B', 'name': job[0], 'cuts': list(job[1]), 'delays': list(job[2]), 'ext': job[3], 'mirror': job[4]})
         ctx.coverage_extra['session_runs'] = len(bjobs)
     finally:
         pool.close()
@@ -394,5 +407,5 @@ def replay(case):
         if got != exp:
             return [{'signature': f'reader-{case["mode"]}:{classify_a(_short(exp), _short(got))}', 'what': f'expected {_short(exp)} got {_short(got)}'}]
         return []
-    viols, outcome = session_worker((case['name'], tuple(case['cuts']), tuple(case['delays']), case['ext']))
+    viols, outcome = session_worker((case['name'], tuple(case['cuts']), tuple(case['delays']), case['ext'], case.get('mirror', False)))
     return [{'signature': s, 'what': w} for s, w in viols]
